@@ -265,7 +265,7 @@ def _exp_gen(rng):
     tlo = rng.uniform(100, 1000)
     thi = tlo + rng.uniform(10, 500)
     T = rng.choice([tlo, thi, rng.uniform(tlo, thi)])
-    base = [10 ** rng.uniform(-30, -2) for _ in range(n)]
+    base = [10 ** rng.uniform(-40, -2) for _ in range(n)]
     return dict(N=n, x11=[b * 10 ** rng.uniform(0, 2) for b in base], x12=[b * 10 ** rng.uniform(0, 2) for b in base],
                 T=T, Tmin=tlo, Tmax=thi)
 
@@ -363,7 +363,7 @@ def expl_post(c, v0, v1, r):
 def _expl_gen(rng):
     d = _bil_gen(rng)
     n = d['N']
-    base = [10 ** rng.uniform(-30, -2) for _ in range(n)]
+    base = [10 ** rng.uniform(-40, -2) for _ in range(n)]
     for k in ('x11', 'x12', 'x21', 'x22'):
         d[k] = [b * 10 ** rng.uniform(0, 2) for b in base]     # neighbouring nodes: same order of magnitude
     return d
@@ -444,7 +444,7 @@ def _gen_table(rng, mode):
     lp = [rng.uniform(-2, 2)]
     for _ in range(nP - 1):
         lp.append(lp[-1] + rng.uniform(0.3, 2))
-    base = 10 ** rng.uniform(-28, -2)
+    base = 10 ** rng.uniform(-40, -2)
     x = [[[base * 10 ** rng.uniform(0, 2) for _ in range(W)] for _ in range(nT)] for _ in range(nP)]
     filt = sorted(rng.sample(range(W), F))
     return dict(nP=nP, nT=nT, W=W, F=F, xsec=x, Tgrid=Tg, Pgrid=[10 ** v for v in lp], logP=lp, filt=filt, mode=mode)
